@@ -142,11 +142,16 @@ func ghostTimerPrefix(kg uint16) []byte { return []byte{byte(kg >> 8), byte(kg),
 
 // HandleDeploy (re)initialises the operator for a new assembly: no alignment
 // state of the previous assembly survives.
+// (Every deploy derives the key space and the operator's own key-group range from THIS request's
+// key-group count and operator list: after a rescale a redeployed process must not keep the
+// range of the previous assembly - C06.)
 //@ func Operator.HandleDeploy
-//@   property C02 C15
+//@   property C02 C15 C06
 //@   nosafety
 //@   requires req != nil
 //@   ensures result == nil ==> o.checkpoint == nil
+//@   atcall NewKeySpace: arg0 == int(req.KeyGroupCount) && arg1 == len(req.Operators)
+//@   ensures result == nil ==> called(NewKeySpace)
 
 // alignSender decides, under the lock, whether a sender has to wait: exactly
 // the senders whose barrier for the open checkpoint has already arrived.
@@ -181,17 +186,19 @@ func ghostTimerPrefix(kg uint16) []byte { return []byte{byte(kg >> 8), byte(kg),
 //@   nosafety
 //@   ensures result1 != nil ==> !result0
 //@   ensures result0 ==> (o.keyGroupRange.Contains(partitioning.KeyGroupRangeFromBytes(startKey[:2], endKey[:2])) && len(recv_) == 0) ||
-//@           forall(0, len(recv_), func(j int) bool { return !recv_[j].needsTable && recv_[j].err == nil })
-//@   ensures result0 && len(recv_) > 0 ==> len(recv_) == len(o.neighbors)
+//@           (len(recv_) == len(o.neighbors) && forall(0, len(recv_), func(j int) bool { return !recv_[j].needsTable && recv_[j].err == nil }))
 //@   loop 1:
 //@     invariant !neighborNeedsTable && len(recv_) == idx_
 //@     invariant forall(0, len(recv_), func(j int) bool { return !recv_[j].needsTable })
 //@     invariant err == nil ==> forall(0, len(recv_), func(j int) bool { return recv_[j].err == nil })
 
+// A neighbour is spared the question only if its key groups do not meet the table's: the table's
+// groups are those of its first and last key INCLUSIVE (key groups are the first two key bytes).
 //@ func neighborPartition.NeedsTable
 //@   property C09
 //@   nosafety
 //@   atcall NeedsTable: o.keyGroupRange.Overlaps(tableKeyGroupRange)
+//@   ensures !called(NeedsTable) ==> !o.keyGroupRange.Overlaps(partitioning.KeyGroupRangeFromBytes(startKey[:2], endKey[:2])) && !result0 && result1 == nil
 
 // ---- keyed state (C03). DKV key of a state entry:
 //   <key group:2 BE><0x00><len(subject key):4 BE><subject key><len(namespace):1><namespace><entry key>
